@@ -21,6 +21,7 @@ import (
 	"sort"
 	"strings"
 	"sync"
+	"sync/atomic"
 	"testing"
 	"verif.local/kit/msgpmon"
 
@@ -34,6 +35,7 @@ type verifMsgpCase struct {
 	gen    string
 	feat   map[string]int
 	raw    bool
+	viol   *int32
 }
 
 func verifMsgpHex(b []byte) string {
@@ -104,6 +106,10 @@ func RunC40(t *testing.T, cd *Codec) {
 
 	// producer: sequential, so that the upstream generator (global math/rand, seeded here) and kit.Rand replay by seed
 	cases := make(chan verifMsgpCase, 256)
+	typeViol := make([][]int32, len(registry))
+	for pi, p := range registry {
+		typeViol[pi] = make([]int32, len(p.Types))
+	}
 	raw := map[reflect.Type]bool{}
 	go func() {
 		defer close(cases)
@@ -116,10 +122,14 @@ func RunC40(t *testing.T, cd *Codec) {
 				}
 				cd.SeedRandomize(int64(c.Seed)*1000003 + int64(pi)*1009 + int64(ti))
 				for ci := 0; ci < n; ci++ {
-					if c.Violations() > 20 {
+					// stop exploring a type after a few violations on it (the first witnesses are kept), and everything after many
+					if c.Violations() > 60 {
 						return
 					}
-					cs := verifMsgpCase{pkg: p, ti: ti, ci: ci, feat: map[string]int{}, raw: isRaw}
+					if atomic.LoadInt32(&typeViol[pi][ti]) >= 3 {
+						break
+					}
+					cs := verifMsgpCase{pkg: p, ti: ti, ci: ci, feat: map[string]int{}, raw: isRaw, viol: &typeViol[pi][ti]}
 					if ci%2 == 0 {
 						if o, err := cd.Randomize(ty.New(), (ci/2)%4); err == nil {
 							cs.obj, cs.gen = o.(msgpmon.Obj), "upstream"
@@ -155,7 +165,11 @@ func RunC40(t *testing.T, cd *Codec) {
 		go func() {
 			defer wg.Done()
 			for cs := range cases {
+				before := c.Violations()
 				verifMsgpC40One(c, cd, cs)
+				if c.Violations() > before {
+					atomic.AddInt32(cs.viol, 1)
+				}
 			}
 		}()
 	}
@@ -226,6 +240,7 @@ func verifMsgpC40One(c *kit.Ctx, cd *Codec, cs verifMsgpCase) {
 			}
 		}
 		c.Count("class_"+key, 1)
+		c.Count("class_"+key+"@"+cs.pkg.Path+"."+ty.Name, 1)
 		c.Violation(key, wit(map[string]any{"encode_msgp_hex": verifMsgpHex(e1), "encode_reflect_hex": verifMsgpHex(e2), "first_difference_at": d, "difference": verifMsgpDiffPath(e1, e2)}))
 		return
 	}
